@@ -30,7 +30,7 @@ def write(property_id, tier, seed, level, coverage, wall_s, violations, assumpti
         "tree": treeenv.tree_commit(),
         "written_at": time.strftime("%Y-%m-%dT%H:%M:%SZ", time.gmtime()),
     }
-    d = os.path.join(treeenv.VERIF, "evidence")
+    d = os.path.join(treeenv.OUT, "evidence")
     os.makedirs(d, exist_ok=True)
     tmp = os.path.join(d, f".{property_id}.json.tmp")
     with open(tmp, "w") as f:
